@@ -30,6 +30,7 @@ import MpcVerif.Proofs.BuildersBridge
 import MpcVerif.Proofs.BuildersKS
 import MpcVerif.Proofs.BuildersMul
 import MpcVerif.Proofs.BuildersDiv
+import MpcVerif.Proofs.BuildersKara
 
 namespace Mpc
 open Mpc.Bld
@@ -500,6 +501,55 @@ example : toNat (evalBuilder (fun a b => arrayMultiplier a b 4) true [true, true
   decide +kernel
 example : toNat (evalBuilder (fun a b => arrayMultiplier a b 6) true [true, false] [false, true]) = 2 := by
   decide +kernel
+
+/-! ## Karatsuba multiplier -/
+
+/-- `NewKaratsubaMultiplier` for EVERY array threshold `limit ≥ 3` (limits below
+3 make the Go recursion non-terminating; the compiler uses limits ≥ 8), on
+either target (its adders / subtractors are `NewAdder` / `NewSubtractor`), all
+operand and result widths: `(x · y) mod 2^nz`.  From the adder, subtractor
+(exact for every result width since fix 1a24bc4 — the recombination no longer
+depends on the absence of a borrow) and array-multiplier theorems and the
+identity `z2·P² + (z1 - z2 - z0)·P + z0 = (al + P·ah)(bl + P·bh)` modulo `2^nz`. -/
+theorem C07_karatsuba (gmw : Bool) (limit : Nat) (hlim : 3 ≤ limit) (pro : Bool) (x y : List Bool) (nz : Nat)
+    (hw : 0 < max x.length y.length) (hnz : 0 < nz) :
+    (evalBuilder (fun a b => do
+        let r ← karatsuba gmw limit (2 * max a.length b.length + 8) a b nz
+        pure (r.getD [])) pro x y).length = nz ∧
+    toNat (evalBuilder (fun a b => do
+        let r ← karatsuba gmw limit (2 * max a.length b.length + 8) a b nz
+        pure (r.getD [])) pro x y) = (toNat x * toNat y) % 2 ^ nz := by
+  refine evalBuilder_spec (R := fun z => z.length = nz ∧ toNat z = (toNat x * toNat y) % 2 ^ nz) ?_ pro (by omega)
+  intro s inp xw yw hwf hx hy hxv hyv
+  have hlx : xw.length = x.length := by rw [← hxv]; simp
+  have hly : yw.length = y.length := by rw [← hyv]; simp
+  have : 2 * max xw.length yw.length + 8 = (2 * max xw.length yw.length + 7) + 1 := by omega
+  rw [this]
+  refine (karatsuba_spec gmw limit hlim _ xw yw nz hwf hx hy (by omega) hnz (by omega)).map ?_
+  intro z s' _ ⟨r, hz, hb, hl, hv⟩
+  subst hz
+  exact ⟨hb, by simpa using hl, by rw [Option.getD_some, hv, hxv, hyv]⟩
+
+/-- `NewMultiplier` on the Yao target (Karatsuba with the per-width threshold
+table, array multiplier below the threshold): exact for all widths. -/
+theorem C07_mul_yao (pro : Bool) (x y : List Bool) (nz : Nat)
+    (hw : 0 < max x.length y.length) (hnz : 0 < nz) :
+    (evalBuilder (fun a b => do let r ← newMultiplier false a b nz; pure (r.getD [])) pro x y).length = nz ∧
+    toNat (evalBuilder (fun a b => do let r ← newMultiplier false a b nz; pure (r.getD [])) pro x y) =
+      (toNat x * toNat y) % 2 ^ nz := by
+  refine evalBuilder_spec (R := fun z => z.length = nz ∧ toNat z = (toNat x * toNat y) % 2 ^ nz) ?_ pro (by omega)
+  intro s inp xw yw hwf hx hy hxv hyv
+  have hlx : xw.length = x.length := by rw [← hxv]; simp
+  have hly : yw.length = y.length := by rw [← hyv]; simp
+  refine (newMultiplierYao_spec hwf nz hx hy (by omega) hnz).map ?_
+  intro z s' _ ⟨r, hz, hb, hl, hv⟩
+  subst hz
+  exact ⟨hb, by simpa using hl, by rw [Option.getD_some, hv, hxv, hyv]⟩
+
+-- 5-bit 27 * 19 = 513 with limit 3 (two recursion levels)
+example : toNat (evalBuilder (fun a b => do
+    let r ← karatsuba false 3 (2 * max a.length b.length + 8) a b 10
+    pure (r.getD [])) true (ofNat 5 27) (ofNat 5 19)) = 513 := by decide +kernel
 
 /-! ## Long division (Yao target of NewUDivider / NewIDivider) -/
 
